@@ -311,6 +311,20 @@ var c03Probes = []struct {
 	{"range with huge bounds", &jast.Array{Items: []jast.Node{&jast.Range{L: &jast.Num{V: -1e15}, R: &jast.Num{V: 1e15}}}}},
 	{"range at the limit+1 from zero", &jast.Array{Items: []jast.Node{&jast.Range{L: &jast.Num{V: 0}, R: &jast.Num{V: 10000000}}}}},
 	{"negative range bounds", &jast.Array{Items: []jast.Node{&jast.Range{L: &jast.Num{V: -3}, R: &jast.Num{V: -1}}}}},
+	// the string form of a function is the empty string, also when the function
+	// went through a library function (and is held by value)
+	{"function held by value & string", &jast.Bin{Op: "&", L: c03ByValueFn("distinct"), R: &jast.Str{V: "x"}}},
+	{"string & function held by value", &jast.Bin{Op: "&", L: &jast.Str{V: "x"}, R: c03ByValueFn("reverse")}},
+	{"function held by value & itself", &jast.Bin{Op: "&", L: c03ByValueFn("sort"), R: c03ByValueFn("distinct")}},
+	{"array holding a function by value & string", &jast.Bin{Op: "&", L: &jast.Array{Items: []jast.Node{c03ByValueFn("distinct")}}, R: &jast.Str{V: "x"}}},
+	{"function held by value in a boolean position", &jast.Bin{Op: "and", L: c03ByValueFn("distinct"), R: &jast.Bool{V: true}}},
+	{"negated function held by value", &jast.Neg{X: c03ByValueFn("distinct")}},
+}
+
+// c03ByValueFn: $fn([$sum, $count])[0] - a function that a library function
+// has handed back (the library stores such members by value)
+func c03ByValueFn(fn string) jast.Node {
+	return &jast.Pred{X: &jast.Call{Fn: &jast.Var{Name: fn}, Args: []jast.Node{&jast.Array{Items: []jast.Node{&jast.Var{Name: "sum"}, &jast.Var{Name: "count"}}}}}, Filters: []jast.Node{&jast.Num{V: 0}}}
 }
 
 func init() {
